@@ -49,13 +49,13 @@ package req
 //@   ensures err == nil ==> 0 <= n && n <= len(buf)
 
 //@ func tryRead(h, r, n) err
-//@   props C03, C01
+//@   props C03, C01, C02
 //@   requires h != nil && r != nil
 //@   modifies *, r.pos, r.avail, r.failed
 //@   ensures h.disableNormalizing == old(h.disableNormalizing)
 
 //@ func ReadHeader(h, r) err
-//@   props C03, C01
+//@   props C03, C01, C02
 //@   requires h != nil && r != nil
 //@   modifies *, r.pos, r.avail, r.failed
 //@   ensures h.disableNormalizing == old(h.disableNormalizing)
